@@ -228,6 +228,37 @@ where
     })
 }
 
+/// `(Padded ws a)`: `a.padded()` (the whitespace set `ws` of the case file must agree with `char::is_whitespace`)
+pub fn v_padded<'a, I, E>(ws: &[u32], a: P<'a, I, E>) -> Res<P<'a, I, E>>
+where
+    I: HInput<'a> + ValueInput<'a>,
+    I::Token: chumsky::text::Char,
+    E: HErr<'a, I>,
+{
+    for &t in ws {
+        if !char::from_u32(t).map_or(false, |c| c.is_whitespace()) {
+            return unsupported("Padded: a token of the whitespace list is not whitespace");
+        }
+    }
+    for t in [97u32, 98, 99, 233, 44, 8364, 40, 41, 59] {
+        if char::from_u32(t).map_or(false, |c| c.is_whitespace()) {
+            return unsupported("Padded: alphabet token is whitespace");
+        }
+    }
+    Ok(bx(a.padded()))
+}
+
+/// the items of a container output, for `(IIntoIter a)` (coq/Model/Syntax.v `val_items`)
+pub fn val_items(v: Val) -> Vec<Val> {
+    match v {
+        Val::List(l) => l,
+        Val::Opt(Some(x)) => vec![*x],
+        Val::Opt(None) => vec![],
+        Val::Unit => vec![],
+        v => vec![v],
+    }
+}
+
 /// `(Lazy a)`: `a.lazy()`
 pub fn v_lazy<'a, I, E>(a: P<'a, I, E>) -> P<'a, I, E>
 where
@@ -564,6 +595,7 @@ impl<'a, I: HInput<'a>, E: HErr<'a, I>> Builder<'a, I, E> {
             G::WithState(k, a) => bx(self.g(a)?.with_state(HState { h: *k })),
             G::Skip(n) => I::skip(*n)?,
             G::Lazy(a) => I::lazy(self.g(a)?)?,
+            G::Padded(ws, a) => I::padded(ws, self.g(a)?)?,
             G::NestedDelims(s, e, others) => I::nested_delims(&self.cv, *s, *e, others)?,
             G::ExtWrap(a) => bx(chumsky::extension::v1::Ext(ExtW(self.g(a)?))),
             G::Pratt(form, atom, ops) => {
@@ -685,7 +717,8 @@ impl<'a, I: HInput<'a>, E: HErr<'a, I>> Builder<'a, I, E> {
                 self.rep(self.g(a)?, *lo, *hi)
                     .configure({ let ck = *ck; move |cfg, ctx: &Val| rep_cfg(cfg, ck, val_count(ctx)) }),
             ),
-            _ => return unsupported("RepUnit: only IRep, ISep, IRepCfg at the root"),
+            IT::IIntoIter(a) => bxu(self.g(a)?.map(val_items).into_iter()),
+            _ => return unsupported("RepUnit: only IRep, ISep, IRepCfg, IIntoIter at the root"),
         })
     }
 
@@ -772,6 +805,8 @@ impl<'a, I: HInput<'a>, E: HErr<'a, I>> Builder<'a, I, E> {
             ),
             IT::IOrNot(a) if !mapped => self.iter2(self.g(a)?.or_not(), &ads, fin),
             IT::IOrNot(_) => unsupported("IMap/IMapWith over IOrNot does not type-check in chumsky"),
+            IT::IIntoIter(a) if !mapped => self.iter2(self.g(a)?.map(val_items).into_iter(), &ads, fin),
+            IT::IIntoIter(_) => unsupported("IMap/IMapWith over IIntoIter: items are not ()"),
 
             // items are `()`: `Parser::map` / `Parser::map_with` apply
             IT::IRep(a, lo, hi) => self.both2(self.rep(self.g_unit(a)?, *lo, *hi), &ads, fin),
